@@ -241,6 +241,18 @@ func lockProbe(args []string) {
 			}
 		}
 	}
+	for _, sc := range reentryScenarios {
+		idx++
+		if idx%*shardN != *shardI {
+			continue
+		}
+		line := reentryOne(topo, sc)
+		must(enc.Encode(line))
+		if !line.Completed || !line.After {
+			out.Close()
+			os.Exit(0)
+		}
+	}
 	for r := 0; r < *stress; r++ {
 		line := stressOne(topo, *seed*1000+int64(*shardI*100+r))
 		must(enc.Encode(line))
@@ -423,6 +435,13 @@ func pairProbe(args []string) {
 		{B("p1", "c12", "S2", "LoadControl"), "AddBinding.afterCheck"},
 		{Action{"a": "unsub", "p": "p1", "c": "c12", "s": "S1", "dev": "own", "sdev": "own", "ack": true}, "Events.snapshot"},
 		{Action{"a": "unbind", "p": "p1", "c": "c11", "s": "S1", "dev": "own", "sdev": "own", "ack": true}, "Events.snapshot"},
+		// parked while scanning the registry (inside the loop of the read-modify-write)
+		{Action{"a": "unbind", "p": "p1", "c": "c11", "s": "S1", "dev": "own", "sdev": "own", "ack": true}, "RemoveBinding.scan"},
+		{Action{"a": "unsub", "p": "p1", "c": "c12", "s": "S1", "dev": "own", "sdev": "own", "ack": true}, "RemoveSubscription.scan"},
+		{Action{"a": "entrem", "p": "p1", "e": "1", "dev": "own", "ack": true}, "RemoveBindingsForEntity.scan"},
+		{Action{"a": "entrem", "p": "p1", "e": "1", "dev": "own", "ack": true}, "RemoveSubscriptionsForEntity.scan"},
+		{Action{"a": "disconnect", "p": "p1"}, "RemoveBindingsForEntity.scan"},
+		{Action{"a": "disconnect", "p": "p1"}, "RemoveSubscriptionsForEntity.scan"},
 	}
 	others := []Action{
 		S("p2", "c21", "S2", "LoadControl"), S("p2", "c12", "S1", "LoadControl"), B("p2", "c12", "S2", "LoadControl"),
